@@ -328,6 +328,19 @@ fn roff_events(text: &str) -> Vec<J> {
     ev
 }
 
+/// the spelling of the help flag at the command level reached by `path`
+fn help_name_at(def: &J, path: &[String]) -> String {
+    let mut level = def;
+    for p in path {
+        if let Some(cmds) = level["tail"]["cmds"].as_array() {
+            if let Some(c) = cmds.iter().find(|c| c["names"][0].as_str() == Some(p.as_str())) {
+                level = &c["level"];
+            }
+        }
+    }
+    level["help_names"].as_array().and_then(|a| a.last()).and_then(J::as_str).unwrap_or("--help").to_string()
+}
+
 fn all_paths(level: &J, prefix: &mut Vec<String>, out: &mut Vec<Vec<String>>) {
     out.push(prefix.clone());
     if level["tail"]["kind"] == "cmd" {
@@ -364,7 +377,7 @@ fn cmd_render(args: &[String]) -> i32 {
         all_paths(&def, &mut Vec::new(), &mut paths);
         for p in &paths {
             let mut argv: Vec<std::ffi::OsString> = p.iter().map(|x| x.into()).collect();
-            argv.push("--help".into());
+            argv.push(help_name_at(&def, p).into());
             let o = run(&b, &argv, &RunOpts { name: Some(APP), comp: None });
             let mut order = json!({"descr":0,"usage":0,"header":0,"items":0,"footer":0});
             let mut items: Vec<String> = Vec::new();
@@ -464,7 +477,7 @@ fn cmd_wrap(args: &[String]) -> i32 {
         let mut lines: Vec<(String, Vec<String>)> = Vec::new();
         for p in &paths {
             let mut a = p.clone();
-            a.push("--help".into());
+            a.push(help_name_at(&def, p));
             lines.push((format!("help:{}", p.join("/")), a));
         }
         lines.push(("err:unknown".into(), vec!["--zzunknownflag".into()]));
